@@ -989,7 +989,7 @@ def history_world(base, history, specs):
                 moved.add(si)
                 nontriv += 1
             last_fi[si] = fi
-            label = spec[0] + (' re-iterated after a source edit' if edited else '')
+            label = 'field-based selector view re-iterated after a source edit' if edited else spec[0]
             for key, view in vs:
                 res = run(lambda: view)
                 exp = _expected(current, fi, spec, key)
